@@ -18,6 +18,7 @@ func init() {
 			"FE-BOOL IsInstant; PV-PAIR: a sample carries the label set built for its own entry",
 			"FE-CLASS avg: an infinite running average is kept for finite/same-sign values; AF point time: float64(UnixMilli())/1000, conversion before division",
 			"PV-NUM sum: Apply is state += v, Result the state",
+			"ERR-LOOP ReadStepResponse checks Err() after draining, on the instant path too; PV-NUM no raw sum of squares",
 		},
 		NotDecided: []string{"numeric results of the aggregators (Welford, quantile interpolation)", "that the storage delivers samples in time order", "equality instant = range at T beyond the shared code path"},
 		Rules: func(r *Run) {
@@ -38,6 +39,8 @@ func init() {
 			ruleAvgInfinityGuard(r)
 			ruleStepTimestampMillis(r)
 			ruleSumAggregatorPlain(r)
+			ruleErrLoop(r, []string{enginePkg, metricPkg, itersPkg}) // an instant and a range query over the same broken stream both fail
+			ruleNoSumOfSquares(r)
 		},
 	})
 }
